@@ -3,6 +3,7 @@ package codegen
 import (
 	"fmt"
 	"log"
+	"regexp"
 
 	"github.com/HobbyOSs/gosk/pkg/ocode"
 	"github.com/HobbyOSs/gosk/pkg/variantstack"
@@ -44,6 +45,17 @@ func processOcode(oc ocode.Ocode, ctx *CodeGenContext, machineCode *[]byte) ([]b
 	}
 
 	log.Printf("debug: processOcode: %s, operands: %v\n", oc.Kind, oc.Operands)
+
+	// [label] 形式のメモリオペランドのラベルをアドレスに解決する (LGDT は自前で解決する)
+	if oc.Kind != ocode.OpLGDT {
+		resolved, err := resolveMemoryOperandLabels(oc.Operands, ctx.SymTable)
+		if err != nil {
+			return nil, fmt.Errorf("%v: %w", oc.Kind, err)
+		}
+		params.Operands = resolved
+		oc.Operands = resolved
+		params.OCode = oc
+	}
 
 	// Check if the instruction is a no-parameter instruction handled by opcodeMap
 	// (オペランド付きの MUL/DIV/IDIV などは 1 バイトのオペコード表では生成できないため、下の switch に回す)
@@ -112,6 +124,37 @@ func processOcode(oc ocode.Ocode, ctx *CodeGenContext, machineCode *[]byte) ([]b
 	default:
 		return nil, fmt.Errorf("not implemented: %v", oc.Kind)
 	}
+}
+
+// memoryLabelOperand は "[ label ]" / "WORD [ label ]" / "ES:[ label ]" のように、
+// 角括弧の中が識別子 1 つだけのメモリオペランドにマッチします。
+var memoryLabelOperand = regexp.MustCompile(`^(.*\[\s*)([A-Za-z$_.][A-Za-z$_.0-9]*)(\s*\])$`)
+
+// registerOperandName はオペランド文法 (pkg/ng_operand) がレジスタとして読む名前にマッチします。
+var registerOperandName = regexp.MustCompile(`^(R[A-D]X|R[SD]I|R[SB]P|R(8|9|1[0-5])|E?[A-D]X|E?[SD]I|E?[SB]P|[A-D][LH]|[C-GS]S|[XY]?MM\d+|[CDT]R\d)$`)
+
+// resolveMemoryOperandLabels は [label] と書かれたメモリオペランドのラベル名を、シンボルテーブルの
+// アドレスに置き換えます。オペランド文法は名前を変位 0 として読むため、置き換えないとアドレス 0 が
+// 黙ってエンコードされます。定義されていない名前はエラーにします。
+func resolveMemoryOperandLabels(operands []string, symTable map[string]int32) ([]string, error) {
+	out := operands
+	copied := false
+	for i, op := range operands {
+		m := memoryLabelOperand.FindStringSubmatch(op)
+		if m == nil || registerOperandName.MatchString(m[2]) {
+			continue
+		}
+		addr, ok := symTable[m[2]]
+		if !ok {
+			return nil, fmt.Errorf("undefined symbol '%s' in memory operand '%s'", m[2], op)
+		}
+		if !copied { // ocode のオペランドスライスは書き換えない
+			out = append([]string(nil), operands...)
+			copied = true
+		}
+		out[i] = fmt.Sprintf("%s%d%s", m[1], uint32(addr), m[3])
+	}
+	return out, nil
 }
 
 func handleNoParamOpcode(ocode ocode.Ocode) []byte {
